@@ -59,3 +59,78 @@ Example C03_ex_cut :
   vres_of (SlicedPacket.from_ethernet (firstn 41 ex_pkt)) =
     VErr (ELen (mkLenError 32 23 LsSlice LyIpv4Packet 18)).
 Proof. vm_compute; reflexivity. Qed.
+
+(* ==== header FIELD VALUES (extension of C03) ==========================================
+   Spec  : Parse/Fields.v `spec_fields bs v` -- per layer of the view the list of
+           (field tag, value) the formats prescribe for the bytes at the layer's ABSOLUTE
+           position (B/W readers of Parse/WireSpec.v; sub-octet fields as bit ranges in the
+           RFC numbering, BitFields/Spec.v): Ethernet II, Linux SLL, 802.1Q, MACsec SecTAG,
+           ARP, IPv4 (+options), AH, IPv6, every extension header of the chain (raw /
+           fragment / AH), UDP, TCP (+9 flags, options), ICMPv4, ICMPv6.
+   Model : Parse/Fields.v `fields_of_packet p` -- the same list through the ACCESSOR models
+           of Parse/Access.v (C01) applied to the slices stored in the strict result.
+   For every byte string: when the strict slicer accepts, (1) the reference decoder accepts
+   with exactly the layers / windows of the result (C03 above) and (2) every accessor of every
+   layer returns the field of the format at that layer's absolute position.  All layer kinds
+   are covered (nothing `_partial`). *)
+From EP Require Import Parse.Access Parse.Fields Parse.FieldsProofs.
+
+Theorem C03_fields_from_ethernet : forall bs p, bytes_ok bs ->
+  SlicedPacket.from_ethernet bs = Ok p ->
+  wire_ethernet bs = VOk (view p) /\ fields_of_packet p = Ok (spec_fields bs (view p)).
+Proof. exact fields_wire_from_ethernet. Qed.
+Print Assumptions C03_fields_from_ethernet.
+
+Theorem C03_fields_from_linux_sll : forall bs p, bytes_ok bs ->
+  SlicedPacket.from_linux_sll bs = Ok p ->
+  wire_linux_sll bs = VOk (view p) /\ fields_of_packet p = Ok (spec_fields bs (view p)).
+Proof. exact fields_wire_from_linux_sll. Qed.
+Print Assumptions C03_fields_from_linux_sll.
+
+Theorem C03_fields_from_ether_type : forall bs et p, bytes_ok bs ->
+  SlicedPacket.from_ether_type et bs = Ok p ->
+  wire_ether_type bs et = VOk (view p) /\ fields_of_packet p = Ok (spec_fields bs (view p)).
+Proof. exact fields_wire_from_ether_type. Qed.
+Print Assumptions C03_fields_from_ether_type.
+
+Theorem C03_fields_from_ip : forall bs p, bytes_ok bs ->
+  SlicedPacket.from_ip bs = Ok p ->
+  wire_from_ip bs = VOk (view p) /\ fields_of_packet p = Ok (spec_fields bs (view p)).
+Proof. exact fields_wire_from_ip. Qed.
+Print Assumptions C03_fields_from_ip.
+
+(* non-vacuity: the Ethernet / VLAN / IPv4 / UDP packet above, and IPv6 (traffic class 0xab,
+   flow label 0xcdef1) / hop-by-hop / fragment (offset 0, M 0) / TCP with NS, ACK, SYN set *)
+Example C03_fields_ex :
+  exists p, SlicedPacket.from_ethernet ex_pkt = Ok p /\
+    fields_of_packet p =
+      Ok [(LEth, [(Fdst, FvN 1108152157446); (Fsrc, FvN 7731092785932); (Fether_type, FvN 33024)]);
+          (LVlan, [(Fpcp, FvN 0); (Fdei, FvB false); (Fvid, FvN 5); (Fether_type, FvN 2048)]);
+          (LIpv4, [(Fversion, FvN 4); (Fihl, FvN 5); (Fdscp, FvN 0); (Fecn, FvN 0); (Ftotal_len, FvN 32);
+                   (Fident, FvN 0); (Fdf, FvB false); (Fmf, FvB false); (Ffrag_off, FvN 0); (Fttl, FvN 64);
+                   (Fprotocol, FvN 17); (Fchecksum, FvN 0); (Fsrc, FvN 16909060); (Fdst, FvN 84281096);
+                   (Foptions, FvBytes [])]);
+          (LUdp, [(Fsrc_port, FvN 1); (Fdst_port, FvN 2); (Flength, FvN 12); (Fchecksum, FvN 0)])] /\
+    spec_fields ex_pkt (view p) =
+      match fields_of_packet p with Ok l => l | _ => [] end.
+Proof. eexists. split; [vm_compute; reflexivity|split; vm_compute; reflexivity]. Qed.
+
+Definition ex6_pkt : bytes :=
+  [106;188;222;241; 0;36; 0; 64] ++ repeat 17 16 ++ repeat 34 16 ++
+  [44;0;1;2;3;4;5;6] ++ [6;0;0;0; 0;0;0;9] ++
+  [0;80; 1;187; 0;0;0;1; 0;0;0;2; 81;18; 16;0; 171;205; 0;7].
+Example C03_fields_ex6 :
+  bytes_ok ex6_pkt /\
+  exists p, SlicedPacket.from_ip ex6_pkt = Ok p /\
+    fields_of_packet p =
+      Ok [(LIpv6, [(Fversion, FvN 6); (Ftraffic_class, FvN 171); (Fflow_label, FvN 843505);
+                   (Fpayload_len, FvN 36); (Fnext_header, FvN 0); (Fhop_limit, FvN 64);
+                   (Fsrc, FvBytes (repeat 17 16)); (Fdst, FvBytes (repeat 34 16))]);
+          (LHopByHop, [(Fnext_header, FvN 44); (Flen_byte, FvN 0); (Fpayload, FvBytes [1; 2; 3; 4; 5; 6])]);
+          (LFragment, [(Fnext_header, FvN 6); (Ffrag_off, FvN 0); (Fmf, FvB false); (Fident, FvN 9)]);
+          (LTcp, [(Fsrc_port, FvN 80); (Fdst_port, FvN 443); (Fseq, FvN 1); (Fack_nr, FvN 2);
+                  (Fdata_offset, FvN 5); (Fns, FvB true); (Fcwr, FvB false); (Fece, FvB false);
+                  (Furg, FvB false); (Fack, FvB true); (Fpsh, FvB false); (Frst, FvB false);
+                  (Fsyn, FvB true); (Ffin, FvB false); (Fwindow, FvN 4096); (Fchecksum, FvN 43981);
+                  (Furgent, FvN 7); (Foptions, FvBytes [])])].
+Proof. split; [apply bytes_okb_spec; vm_compute; reflexivity|]. eexists. split; vm_compute; reflexivity. Qed.
